@@ -50,7 +50,7 @@ func (c04) Run(t *tape.Tape, tier Tier) *Result {
 		res.add(Violation{Prop: "C04", Oracle: "encode-at-origin", Culprit: typeOfLayer(want[0]), Expected: "no panic", Observed: p})
 		return res
 	}
-	refs := refPool(t, g, spec, e0, 2)
+	refs := refPool(t, g, &gen.Builder{}, spec, e0, 2)
 	var refErrs []error
 	for _, r := range refs {
 		refErrs = append(refErrs, r.Err)
